@@ -16,7 +16,7 @@ from vf.xmodel import Schema, Rop, build_api, build_loader
 SHARDS = {'quick': 16, 'thorough': 32}
 TIMEOUT = {'quick': 900, 'thorough': 3600}
 MUST_HIT = ['Cell.two-classes', 'Cell.read-all-spellings', 'Cell.serialize', 'Cell.where_eq',
-            'Referential.write-rejected', 'Referential.ctor-keyword', 'ClassName.spellings']
+            'Referential.write-rejected', 'Referential.ctor-keyword', 'Referential.loaded-instance', 'ClassName.spellings']
 MUST_REACH = ['xtuml/meta.py:Class.__getattr__', 'xtuml/meta.py:Class.__setattr__',
               'xtuml/meta.py:Class.__delattr__', 'xtuml/meta.py:MetaModel.find_metaclass',
               'xtuml/meta.py:MetaClass.new', 'xtuml/meta.py:WhereEqual.__call__',
@@ -29,7 +29,8 @@ RULE = ('exhaustive: for attribute names of length 2, 3 and 4 every history of u
         'three-write histories are all 16^3 spelling triples - followed by the observation of the '
         'cell through every spelling; plain, identifying and referential attributes; class-name '
         'spellings of a 4-letter kind in new/select/find; random: 50-operation histories over '
-        'three attributes interleaved with relate/unrelate, queries and serialization. '
+        'three attributes interleaved with relate/unrelate, queries and serialization, on instances '
+        'made by new() and on instances read back by the loader (null and set references). '
         'Non-trivial = at least two different spellings are used; enumerated histories are '
         'distinct by construction.')
 ASSUMPTIONS = ['after a delete the attribute may read as unset (AttributeError) or as null, but '
@@ -201,6 +202,72 @@ def referential_checks(ctx, route, sps_ref):
         ctx.case_enum(True)
 
 
+def reload(m):
+    '''the same population as loaded instances (serialized text read back by the loader)'''
+    import xtuml
+    l = xtuml.ModelLoader()
+    l.input(xtuml.serialize(m))
+    return l.build_metamodel(xtuml.IntegerGenerator())
+
+
+def loaded_referential_checks(ctx, sps_ref):
+    '''
+    instances that come out of the loader (one with a null reference, one with
+    a set reference): the referential attribute follows the link under every
+    spelling through relate / unrelate, and rejects writes under every spelling
+    '''
+    import xtuml
+    sch = schema('Nm', 'STRING')
+    for sp in sps_ref:
+        m0 = build_api(sch)
+        a1, a2 = m0.new('Othr'), m0.new('Othr')
+        m0.new('Thng', Nm='null', Keep='k')
+        xtuml.relate(m0.new('Thng', Nm='set', Keep='k'), a1, 1)
+        m = reload(m0)
+        o1 = m.select_one('Othr', xtuml.where_eq(Id=a1.Id))
+        o2 = m.select_one('Othr', xtuml.where_eq(Id=a2.Id))
+        for start in ('null', 'set'):
+            ctx.hit('Referential.loaded-instance')
+            t = m.select_one('Thng', xtuml.where_eq(Nm=start))
+            want = None if start == 'null' else o1.Id
+            hist = ['loaded with %s reference' % start]
+
+            def observe():
+                vals = dict((s, getattr(t, s, DELETED)) for s in sps_ref)
+                if set(vals.values()) != set([want]):
+                    raise Mismatch('read/referential-spelling', 'loaded instance, %s: the spellings read %r, '
+                                   'the link gives %r' % (', '.join(hist), vals, want))
+                for s in sps_ref:
+                    if (t in m.select_many('Thng', xtuml.where_eq(**{s: o2.Id}))) != (want == o2.Id):
+                        raise Mismatch('filter/referential-spelling', 'loaded instance, %s: where_eq(%s=<id of o2>) '
+                                       'selects wrongly (link gives %r)' % (', '.join(hist), s, want))
+            observe()
+            if start == 'set':
+                xtuml.unrelate(t, o1, 1)
+                want = None
+                hist.append('unrelate')
+                observe()
+            xtuml.relate(t, o2, 1)
+            want = o2.Id
+            hist.append('relate to o2')
+            observe()
+            try:
+                setattr(t, sp, o1.Id)
+                raised = False
+            except xtuml.MetaException:
+                raised = True
+            hist.append('write .%s (raised=%s)' % (sp, raised))
+            observe()
+            if not raised:
+                raise Mismatch('write/referential-spelling-accepted',
+                               'loaded instance: Thng.%s = <id> was accepted for a referential attribute' % sp)
+            xtuml.unrelate(t, o2, 1)
+            want = None
+            hist.append('unrelate')
+            observe()
+            ctx.case_enum(True)
+
+
 def class_name_checks(ctx, route):
     import xtuml
     sch = schema('Nm', 'STRING')
@@ -282,6 +349,13 @@ def random_history(ctx, rng, route, length):
     others = [m.new('Othr') for _ in range(3)]
     insts = [m.new('Thng', Keep='k%d' % i) for i in range(3)]
     cells = [dict(Abc='', nUm=0, Keep='k%d' % i, Ref=None) for i in range(3)]
+    if route == 'loader':
+        # the population as loaded instances: one reference set, two null
+        xtuml.relate(insts[0], others[0], 1)
+        cells[0]['Ref'] = others[0].Id
+        m = reload(m)
+        others = [m.select_one('Othr', xtuml.where_eq(Id=o.Id)) for o in others]
+        insts = [m.select_one('Thng', xtuml.where_eq(Keep='k%d' % i)) for i in range(3)]
     sps = dict(Abc=spellings('Abc'), nUm=spellings('nUm'), Ref=spellings('Ref'))
     log = []
     cnt = 0
@@ -407,6 +481,11 @@ def run(ctx):
                 referential_checks(ctx, route, spellings('Ref'))
             except Mismatch as e:
                 ctx.violation(e.key, e.what, case=dict(part='referential', route=route))
+            if route == 'loader':
+                try:
+                    loaded_referential_checks(ctx, spellings('Ref'))
+                except Mismatch as e:
+                    ctx.violation(e.key, e.what, case=dict(part='loaded-referential', route=route))
             try:
                 class_name_checks(ctx, route)
             except Mismatch as e:
